@@ -56,6 +56,11 @@ var Catalogue = []ReSpec{
 	{`((ab|cd))`, []string{"ab", "cd"}, []string{"a", "abcd"}},
 	{`(((x)))y`, []string{"xy"}, []string{"x", "y"}},
 	{`((a)|(b))+`, []string{"a", "ab", "bba"}, []string{"", "c"}},
+	// Unicode classes (Perl syntax with Unicode groups, as regexp.Compile accepts)
+	{`\pL+`, []string{"ab", "é", "Ω"}, []string{"1", ""}},
+	{`[\pL\pN_]+`, []string{"a1_", "é9"}, []string{"-", ""}},
+	{`\p{Greek}+`, []string{"Ω", "αβ"}, []string{"a", ""}},
+	{`\PL+`, []string{"12", "-"}, []string{"a", ""}},
 }
 
 // Idents are static literals; they include every regex-active identifier
@@ -96,6 +101,8 @@ func bindName(r *rand.Rand) string {
 		return "route"
 	case 1:
 		return pick(r, []string{"capture", "withOptional", "Route"})
+	case 2:
+		return pick(r, []string{"user-id", "v.1", "n~m", "k@x", "a+b", "(z)", "$v", "x'y"}) // every identifier character may occur in a bind name
 	}
 	return pick(r, Binds)
 }
